@@ -50,9 +50,9 @@ var c04Check = &impCheck{
 	bfsDepth: [2]int{4, 5},
 	dev:      [2]int{3, 4},
 	fams: []*family{
-		{name: "wrappers", ctors: []string{"NewFile"}, paths: []string{"a/f", "b/f", "fmt", "x/dot", "app/vendor/a/f"}, names: c04Names(), canon: []string{"a/f", "x/other"},
+		{name: "wrappers", ctors: []string{"NewFile"}, paths: []string{"a/f", "b/f", "fmt", "x/dot", "app/vendor/a/f", "s/lash/"}, names: c04Names(), canon: []string{"a/f", "x/other"},
 			aliases: []string{"f", ".", "_"}, prefixes: []string{"pkg"}, maxRefs: 3, freeRefs: 2, wrappers: allWrappers, anon: true, extra: true, bigHints: c04BigHints, oneDict: true},
-		{name: "local", ctors: []string{"NewFilePath", "NewFilePathName"}, local: "a.b/c", paths: []string{"a.b/c", "a.b/c/x", "fmt"}, names: map[string]string{"a.b/c/x": "x"}, canon: []string{"a.b/c/x", "a.b/c"},
+		{name: "local", ctors: []string{"NewFilePath", "NewFilePathName"}, local: "a.b/c", paths: []string{"a.b/c", "a.b/c/x", "fmt", "a.b/c/"}, names: map[string]string{"a.b/c/x": "x"}, canon: []string{"a.b/c/x", "a.b/c"},
 			aliases: []string{"."}, prefixes: []string{"pkg"}, maxRefs: 3, freeRefs: 3, wrappers: allWrappers, anon: true, extra: true},
 		{name: "cgo", ctors: []string{"NewFile"}, paths: []string{"C", "fmt", "a/c"}, names: map[string]string{"a/c": "c"},
 			aliases: []string{"c"}, prefixes: []string{"pkg"}, maxRefs: 3, freeRefs: 3, wrappers: []int{0, imp.WrapperIndex("dictkey-nullvalue")}, anon: true, extra: true,
